@@ -18,7 +18,7 @@ RULE = ("Operation histories on the real Atoms class, each step judged three way
         "the state before the step; (3) if at least one atom is left: save_lmpdat -> independent reader -> declared "
         "counts = contents, ids in range, resolved file = resolved state; and load_lmpdat reads the same state back. "
         "Bounded-exhaustive: from 2-4-atom structures (with/without tables, with a table but no terms, 'as loaded from "
-        "CIF') every operation of the alphabet {delete each subset, extend by each fragment with each identity map of "
+        "CIF') every operation of the alphabet {delete each subset, pop (default / negative / zero position), extend by each fragment with each identity map of "
         "size <= 2, replicate (1,1,2)/(2,1,1), copy, subset, single-site replace} to depth 2 (quick) / 3 (thorough), "
         "which includes 'empty a kind, then add to it' and 'delete all atoms, then extend'. Random: sequences of up to 8 "
         "operations on 5-12-atom structures. Non-trivial: the history contains at least one deletion or extension "
@@ -124,6 +124,11 @@ def op_list(n, a, rng):
         ops.append(("rep", [2, 1, 1]))
     ops.append(("copy",))
     if n >= 1:
+        ops.append(("pop", None))
+        if n >= 2:
+            ops.append(("pop", -2))
+            ops.append(("pop", 0))
+    if n >= 1:
         ops.append(("sub", [0]))
         if n >= 2:
             ops.append(("sub", [n - 1, 0]))
@@ -182,6 +187,15 @@ def apply_op(a, op, rng, step, ctx, st, w):
             report(ctx, st, bad, flagged, w, what)
             b.charges = np.array([atomsgen.uid(4000.0 + 500.0 * step, i) for i in range(len(b))])
             pred = None
+        elif kind == "pop":
+            b = clone(a)
+            if op[1] is None:
+                b.pop()
+                gone = ids[-1]
+            else:
+                b.pop(op[1])
+                gone = ids[op[1]]
+            pred = AM.delete(m0, [gone])
         elif kind == "copy":
             b = a.copy()
             pred = m0
@@ -273,7 +287,7 @@ def apply_op(a, op, rng, step, ctx, st, w):
     for kd in AM.KNAMES:
         if len(getattr(b, "%s_types" % kd)) == 0 and len(getattr(b, "%s_type_coeffs" % kd)) > 0:
             st.seen("emptied_kind_with_table", kd)
-    changed = kind in ("del", "ext", "rpl") and any(len(getattr(b, "%s_types" % kd)) != len(getattr(a, "%s_types" % kd)) for kd in AM.KNAMES)
+    changed = kind in ("del", "ext", "rpl", "pop") and any(len(getattr(b, "%s_types" % kd)) != len(getattr(a, "%s_types" % kd)) for kd in AM.KNAMES)
     return b, changed
 
 
@@ -420,7 +434,7 @@ def requirements(stats, tier):
     need = []
     if stats.get("operations_applied") < (3000 if tier == "quick" else 100000):
         need.append("too few operations applied: %d" % stats.get("operations_applied"))
-    for k in ("del", "ext", "rep", "copy", "sub", "rpl"):
+    for k in ("del", "ext", "rep", "copy", "sub", "rpl", "pop"):
         if not stats.has("operation_kind", k):
             need.append("operation %s never applied" % k)
     if stats.nseen("emptied_kind_with_table") < 3:
